@@ -82,6 +82,7 @@ type tncSim struct {
 	regSeen     bool
 	connectKind byte
 	connects    int
+	stage       func() string // the application's stage (set by the harness)
 }
 
 const (
@@ -176,7 +177,7 @@ func (t *tncSim) handle(f agwFrame) {
 		t.polls++
 		d := make([]byte, 4)
 		binary.LittleEndian.PutUint32(d, uint32(t.outstanding))
-		if sc.YBad > 0 && t.polls == 1 { // a malformed answer to a pending poll
+		if sc.YBad > 0 && (!sc.YBadClose && t.polls == 1 || sc.YBadClose && t.stage != nil && t.stage() == "close") { // a malformed answer to a pending poll
 			d = make([]byte, []int{0, 0, 3, 8, 5}[sc.YBad])
 		}
 		t.send(agwFrame{Port: f.Port, Kind: 'Y', From: f.From, To: f.To, Data: d})
@@ -219,10 +220,11 @@ type c13Scn struct {
 	DropEvery int    `json:"drop_every"`       // the outstanding count drops by one after every n-th poll
 	HS        string `json:"hs,omitempty"`     // handshake variant
 	Digis     int    `json:"digis"`
-	Deep      bool   `json:"deep,omitempty"`      // small scenario explored one deviation deeper from the established connection on, in every tier
-	Redial    int    `json:"redial,omitempty"`    // 1: an earlier session with the same station was opened and closed first; 2: an earlier dial to it was refused
-	MaxFrame  int    `json:"max_frame,omitempty"` // MAXFRAME in the 'g' reply minus... 0 = the default 4; -1 = MAXFRAME 0; n = MAXFRAME n
-	YBad      int    `json:"y_bad,omitempty"`     // the first outstanding-frames poll is answered with a data field of 0 (1), 3 (2), 8 (3), 5 (4) bytes instead of 4
+	Deep      bool   `json:"deep,omitempty"`           // small scenario explored one deviation deeper from the established connection on, in every tier
+	Redial    int    `json:"redial,omitempty"`         // 1: an earlier session with the same station was opened and closed first; 2: an earlier dial to it was refused
+	MaxFrame  int    `json:"max_frame,omitempty"`      // MAXFRAME in the 'g' reply minus... 0 = the default 4; -1 = MAXFRAME 0; n = MAXFRAME n
+	YBadClose bool   `json:"y_bad_in_close,omitempty"` // the malformed answers are given to the polls Close issues (its flush), not to the first poll
+	YBad      int    `json:"y_bad,omitempty"`          // the first outstanding-frames poll is answered with a data field of 0 (1), 3 (2), 8 (3), 5 (4) bytes instead of 4
 	Mal       int    `json:"mal"`
 	MalWhen   int    `json:"mal_when,omitempty"` // malformed input arrives 0: once the registration was seen; 1: after OpenPortTCP returned, digested before the application dials; 2: on the established connection, while the application reads
 	Choices   []int  `json:"choices,omitempty"`
@@ -231,8 +233,8 @@ type c13Scn struct {
 func (s c13Scn) digis() []string { return []string{"LD5SK", "W1AW-1"}[:s.Digis] }
 
 func (s c13Scn) describe() string {
-	return fmt.Sprintf("%s port=%d frames=%v foreign=%d readbuf=%d late=%d onewrite=%v burst=%v seg=%s chunks=%v drop=%d hs=%s digis=%d mal=%d/%d ybad=%d redial=%d maxframe=%d",
-		s.Kind, s.Port, s.Frames, s.Foreign, s.ReadBuf, s.Late, s.OneWrite, s.Burst, c13SegName(s.Seg), s.Chunks, s.DropEvery, s.HS, s.Digis, s.Mal, s.MalWhen, s.YBad, s.Redial, s.MaxFrame)
+	return fmt.Sprintf("%s port=%d frames=%v foreign=%d readbuf=%d late=%d onewrite=%v burst=%v seg=%s chunks=%v drop=%d hs=%s digis=%d mal=%d/%d ybad=%d%v redial=%d maxframe=%d",
+		s.Kind, s.Port, s.Frames, s.Foreign, s.ReadBuf, s.Late, s.OneWrite, s.Burst, c13SegName(s.Seg), s.Chunks, s.DropEvery, s.HS, s.Digis, s.Mal, s.MalWhen, s.YBad, s.YBadClose, s.Redial, s.MaxFrame)
 }
 
 func c13SegName(i int) string {
@@ -323,6 +325,7 @@ func c13Harness(sc c13Scn, o *c13Obs) func() {
 	return func() {
 		*o = c13Obs{}
 		sim := &tncSim{cfg: sc}
+		sim.stage = func() string { return o.stage }
 		o.sim = sim
 		P := byte(sc.Port)
 		vnet.OnPipe = func(cl, sv *vnet.TCPConn) { cl.SetReadSeg(c13Seg(sc.Seg)) }
@@ -601,8 +604,12 @@ func c13Judge(sc c13Scn, o *c13Obs, res *vs.Result) (out []c13Finding, poisoned 
 		}
 		add(cl, "%s", c)
 	}
+	if sc.YBad > 0 && sc.YBadClose && res.Outcome == "done" && o.stage == "done" && !sim.dSeen {
+		// whatever the flush inside Close runs into, closing performs the disconnect exchange
+		add("close-without-disconnect", "Close returned %v after malformed answers to its flush polls, the TNC never received a 'd' frame", o.closeErr)
+	}
 	if sc.Kind == "malformed" || sc.YBad > 0 {
-		return // only "never crashes the process" is demanded for malformed TNC input
+		return // otherwise only "never crashes the process" is demanded for malformed TNC input
 	}
 	if res.Outcome != "done" {
 		add("application-call-never-returns|"+o.stage, "%s: %+v", res.Outcome, res.Blocked)
@@ -788,6 +795,9 @@ func c13Scenarios(thorough bool) []c13Scn {
 	}
 	for _, mf := range []int{-1, 1, 2, 7} {
 		out = append(out, c13Scn{Kind: "outbound", Chunks: []int{300, 300, 1}, DropEvery: 1, MaxFrame: mf}, c13Scn{Kind: "outbound", Chunks: []int{1}, DropEvery: 2, MaxFrame: mf})
+	}
+	for _, yb := range []int{2, 3} {
+		out = append(out, c13Scn{Kind: "outbound", Chunks: []int{1}, DropEvery: 1, YBad: yb, YBadClose: true}, c13Scn{Kind: "outbound", Chunks: []int{300, 300}, DropEvery: 1, YBad: yb, YBadClose: true})
 	}
 	for yb := 1; yb <= 4; yb++ { // malformed answers to the host's own polls (Write pacing, Flush, Close)
 		out = append(out, c13Scn{Kind: "outbound", Chunks: []int{1}, DropEvery: 1, YBad: yb}, c13Scn{Kind: "outbound", Chunks: []int{300, 300}, DropEvery: 2, YBad: yb})
